@@ -35,12 +35,12 @@ var c07Dims = []struct {
 	Name string
 	Vals []string
 }{
-	{"spec", []string{"null-node", "null-branch", "null-branching", "null-branches", "unknown-target", "unknown-interpreter", "unknown-branchtype", "unknown-patternsyntax", "nonstring-source", "action-on-message-node", "empty-doc", "wrong-typed-nodes", "nodes-null", "no-error-node", "custom-error-node", "bad-json-pattern", "null-guard", "null-action", "null-pattern", "scalar-pattern", "empty-target", "not-compiled"}},
+	{"spec", []string{"null-node", "null-branch", "null-branching", "null-branches", "unknown-target", "unknown-interpreter", "unknown-branchtype", "unknown-patternsyntax", "nonstring-source", "action-on-message-node", "empty-doc", "wrong-typed-nodes", "nodes-null", "no-error-node", "custom-error-node", "bad-json-pattern", "null-guard", "null-action", "null-pattern", "scalar-pattern", "empty-target", "not-compiled", "array-patterns"}},
 	{"state", []string{"nil-bindings", "permanent", "unknown-node", "empty-node-name", "at-error-node"}},
-	{"msg", []string{"null", "scalar", "deep", "none", "string-with-question-mark"}},
+	{"msg", []string{"null", "scalar", "deep", "none", "string-with-question-mark", "go-typed"}},
 	{"ctl", []string{"nil", "limit-zero", "limit-negative", "breakpoint", "nil-breakpoints-huge-limit"}},
 	{"props", []string{"nil", "nested"}},
-	{"act", []string{"throw", "spin", "retnull", "retscalar", "retarray", "emitbad-nan", "emitbad-func", "emitbad-cycle", "setbad", "setcycle", "getter-throw", "getter-loop", "nerrpartial", "nnilexec", "nnilbs", "nnoevents", "emit-throw", "none", "throw-object", "throw-error", "throw-null", "throw-undefined", "throw-number", "throw-hostile-tostring", "throw-hostile-message", "misuse-0", "misuse-1", "misuse-2", "misuse-3", "misuse-4", "misuse-5", "misuse-6", "misuse-7", "misuse-8", "misuse-9"}},
+	{"act", []string{"throw", "spin", "retnull", "retscalar", "retarray", "emitbad-nan", "emitbad-func", "emitbad-cycle", "setbad", "setcycle", "getter-throw", "getter-loop", "nerrpartial", "nnilexec", "nnilbs", "nnoevents", "emit-throw", "none", "ret-func-in-array", "throw-object", "throw-error", "throw-null", "throw-undefined", "throw-number", "throw-hostile-tostring", "throw-hostile-message", "misuse-0", "misuse-1", "misuse-2", "misuse-3", "misuse-4", "misuse-5", "misuse-6", "misuse-7", "misuse-8", "misuse-9"}},
 	{"guard", []string{"throw", "spin", "retnull", "retscalar", "retarray", "emitbad-nan", "emitbad-cycle", "getter-throw", "nerrpartial", "nnilexec", "nnilbs", "nnoevents", "none", "throw-object", "throw-error", "throw-null", "throw-undefined", "throw-number", "throw-hostile-tostring", "throw-hostile-message", "misuse-0", "misuse-1", "misuse-3", "misuse-5", "misuse-8"}},
 	{"err", []string{"aeb", "aen", "aen-missing-node"}},
 }
@@ -125,6 +125,10 @@ func behaviour(name string, native bool, guard bool) (*actlang.Prog, bool) {
 	case "nnilbs":
 		return prog(true, Op{K: actlang.NativeNilBs}), native
 	}
+	if name == "ret-func-in-array" {
+		// values that are not JSON inside an array of the returned bindings
+		return prog(false, Op{K: actlang.Raw, A: `return {handlers: [function() { return 1; }, "x", {nested: [function() {}]}], go: 1};`}), !native && !guard
+	}
 	if strings.HasPrefix(name, "throw-") {
 		return prog(native, Op{K: actlang.Emit, V: "lost"}, Op{K: actlang.ThrowVal, A: name[len("throw-"):]}), true
 	}
@@ -193,6 +197,11 @@ func c07Build(cs c07Case) (as *rstep.ASpec, spec *core.Spec, loadErr error, appl
 	}
 	if cs.Spec == "action-on-message-node" {
 		as.Nodes["start"].Action = prog(native, Op{K: actlang.Set, A: "x", V: 1.0})
+	}
+	if cs.Spec == "array-patterns" {
+		// array (set) patterns on a message branch and on a bindings branch
+		as.Nodes["start"].Branches = append([]rstep.ABranch{{Pattern: M{"go": "?g", "items": []interface{}{"x"}}, Target: "act"}}, as.Nodes["start"].Branches...)
+		as.Nodes["act"].Branches = append([]rstep.ABranch{{Pattern: M{"handlers": []interface{}{"?h", "x"}}, Target: "done"}, {Pattern: M{"items": []interface{}{M{"k": "?v"}}}, Target: "done"}}, as.Nodes["act"].Branches...)
 	}
 	if cs.Spec == "scalar-pattern" {
 		as.Nodes["start"].Branches[0].Pattern = 7.0
@@ -378,6 +387,11 @@ func c07Run(c *vh.Ctx, cs c07Case) (clause, detail string, nontrivial bool) {
 		msgs = nil
 	case "string-with-question-mark":
 		msgs = []interface{}{M{"go": "?x"}}
+	case "go-typed":
+		// what a Go host can hand in: a message decoded by a YAML library (maps with interface{} keys), typed
+		// slices and maps, small integer types - also inside arrays
+		msgs = []interface{}{M{"go": 1.0, "items": []interface{}{map[interface{}]interface{}{"k": "v"}, "x", []string{"y"}, uint8(3), map[string]string{"k": "v"}},
+			"n": int32(7), "m": map[interface{}]interface{}{"a": []interface{}{map[interface{}]interface{}{1: 2}}}}}
 	}
 	ctl := &core.Control{Limit: 10}
 	limit := 10
@@ -442,6 +456,9 @@ func c07Run(c *vh.Ctx, cs c07Case) (clause, detail string, nontrivial bool) {
 	}
 	// surfaced? compare with the reference where it is defined
 	refOK := cs.Spec == "" || cs.Spec == "unknown-target" || cs.Spec == "empty-target"
+	if cs.Spec == "array-patterns" || cs.Msg == "go-typed" || cs.Act == "ret-func-in-array" {
+		refOK = false // values outside JSON have no reference semantics: totality (trap) only
+	}
 	if cs.Act == "setcycle" {
 		refOK = false // a self-referential binding has no canonical rendering to compare; trap-checked only
 	}
